@@ -21,6 +21,7 @@ type c24Scenario struct {
 	Server    EndCfg `json:"server"`
 	Net       NetCfg `json:"net"`
 	Resume    bool   `json:"resume"`
+	Client2   []uint16 `json:"client2_suites,omitempty"` // non-nil: the client (same session cache) uses this suite list for the second connection
 	Server2   []uint16 `json:"server2_suites,omitempty"` // non-nil: the server is reconfigured with this suite list (same ticket keys) before the second connection
 	Downgrade uint16 `json:"downgrade,omitempty"` // transport attack: strip versions above this from the ClientHello
 	Tape      []int  `json:"tape,omitempty"`
@@ -273,6 +274,32 @@ func genC24(seed uint64, tier string) any {
 			}
 			sc.Server2 = l
 		}
+	}
+	if sc.Resume && sc.Client.Suites != nil && r.Chance(1, 4) {
+		// the client is reconfigured between the two connections: its list reordered, shortened, or (TLS 1.3)
+		// with the other hash's suite put first
+		l := append([]uint16(nil), sc.Client.Suites...)
+		switch r.Intn(4) {
+		case 0:
+			for i, j := 0, len(l)-1; i < j; i, j = i+1, j-1 {
+				l[i], l[j] = l[j], l[i]
+			}
+		case 1:
+			if len(l) > 1 {
+				l = l[1:]
+			}
+		case 2:
+			l = append([]uint16{0x1301}, l...)
+		default:
+			l = append([]uint16{0x1302}, l...)
+		}
+		var d []uint16
+		for _, id := range l {
+			if !u16in(id, d) {
+				d = append(d, id)
+			}
+		}
+		sc.Client2 = d
 	}
 	sc.Client.NoBuffer = r.Chance(1, 4)
 	sc.Server.NoBuffer = r.Chance(1, 4)
@@ -690,7 +717,17 @@ func execC24(t *testing.T, scAny any, keepLog bool) *Outcome {
 				sc2 = &cp
 				o.count("fault.server_reconfigured_between_connections", 1)
 			}
-			c2 := startConn(run, "b", ccfg, scfg2, sc.Net, nil)
+			ccfg2 := ccfg
+			if sc.Client2 != nil {
+				ccfg2 = ccfg.Clone() // same session cache
+				ccfg2.CipherSuites = sc.Client2
+				ccfg2.Rand = kit.NewReader(run.R.Derive("cli-rand-2"))
+				cp := *sc2
+				cp.Client.Suites = sc.Client2
+				sc2 = &cp
+				o.count("fault.client_reconfigured_between_connections", 1)
+			}
+			c2 := startConn(run, "b", ccfg2, scfg2, sc.Net, nil)
 			s.Run()
 			o.Fail = c24Check(sc2, c2, true, c1, o, nil)
 		}
@@ -890,6 +927,10 @@ func c24Check(sc *c24Scenario, co *connOutcome, second bool, first *connOutcome,
 	if second {
 		canResume := !sc.Client.NoTickets && !sc.Server.NoTickets && sc.Client.Cache
 		stillEnabled := first.CState.Version == vTLS13 || sc.Server.Suites == nil || u16in(first.CState.CipherSuite, sc.Server.Suites)
+		if sc.Client2 != nil {
+			// whether the session must still resume after the client changed its offer is not asserted
+			canResume = canResume && cs.DidResume
+		}
 		if sc.Server2 != nil {
 			if cs.DidResume && !stillEnabled {
 				return Failf("c24.resume", "session resumed with a cipher suite the server no longer enables", "suite %04x, server list now %04x", cs.CipherSuite, sc.Server.Suites)
